@@ -214,6 +214,23 @@ fn probe_addrs(base: u64, u: usize, l: &Layout) -> Vec<u64> {
     s.into_iter().collect()
 }
 
+/// `n` small regions from `base`: pattern 0 = all adjacent one-byte regions, 1 = one-byte regions
+/// separated by one-byte holes, 2 = sizes 1,2,3,1,2,3.. alternating adjacent / hole.
+pub fn many_regions(base: u64, n: usize, pattern: usize) -> Layout {
+    let mut regs = Vec::new();
+    let mut cur = base;
+    for i in 0..n {
+        let (len, gap) = match pattern {
+            0 => (1u64, 0u64),
+            1 => (1, 1),
+            _ => ((i % 3) as u64 + 1, (i % 2) as u64),
+        };
+        regs.push((cur, len));
+        cur += len + gap;
+    }
+    Layout { regs }
+}
+
 pub fn bases_mmap(u: usize) -> Vec<u64> {
     vec![0, 0x1000, (1u64 << 32) - 3, (1u64 << 63) - 3, u64::MAX - u as u64]
 }
@@ -287,6 +304,22 @@ pub fn run(tier: Tier, replay: Option<String>) -> i32 {
             let addrs: Vec<u64> = (0..5).chain((0..6).map(|d| u64::MAX - d)).collect();
             check_queries(&ctx, "mock", &m, &l, &addrs, &lens, true);
             nlay.fetch_add(1, std::sync::atomic::Ordering::Relaxed);
+        }
+    }
+    // layouts with many regions (lookup strategies may change with the region count)
+    for n in [9usize, 10, 12, 16, 17, 32, 33, 64, 65] {
+        for pattern in 0..3 {
+            let l = many_regions(0x1000, n, pattern);
+            let span = (l.regs.last().unwrap().0 + l.regs.last().unwrap().1 - 0x1000) as usize;
+            let addrs: Vec<u64> = (0..span as u64 + 3).map(|d| 0x0fff + d).chain([0, u64::MAX]).collect();
+            let lens2: Vec<usize> = vec![0, 1, 2, 3, 4, span, span + 1, usize::MAX];
+            match build_mmap(&l) {
+                Ok(m) => check_queries(&ctx, "mmap", &m, &l, &addrs, &lens2, true),
+                Err(e) => ctx.machinery(&format!("cannot build {}: {}", l.describe(), e)),
+            }
+            let mock = MockMemory::new(&l);
+            check_queries(&ctx, "mock", &mock, &l, &addrs, &lens2, true);
+            nlay.fetch_add(2, std::sync::atomic::Ordering::Relaxed);
         }
     }
     // huge layouts over raw regions (queries never touch memory)
